@@ -158,6 +158,11 @@ def main():
         if bad:
             st = we.blame_step(p, bad)
             shape = we.type_class(st["t"]) if st else "?"
+            if kind.startswith("cpp") and st is not None:
+                us = []
+                we._unions(st["t"], us)
+                if any(we.type_class(u) in we.cpp_variant_tag_clash(p) for u in us):
+                    shape += ":one-cpp-variant-two-tag-sets"          # the C02 finding, met here because values travel as NDJSON
             c.violation("C17:%s:%s" % (kind, shape), bad,
                         {"package_model": open(os.path.join(p.root, "model", "model.yml")).read(), "kind": kind, "behaviour": b,
                          "input_hex": open(infile, "rb").read().hex()[-8000:] if infile and os.path.exists(infile) else None})
